@@ -75,7 +75,7 @@ def resStr : Res → String
   | Res.info n d sz => infoStr n d sz
   | Res.listing l =>
     if l.isEmpty then "-" else "+".intercalate (sortStrings (l.map (fun e => infoStr e.1 e.2.1 e.2.2)))
-  | Res.badOp => "bad-op"
+  | Res.badOp => "nohandle"
 
 def pathOf (s : String) : String := if s == "@" then "" else s
 
@@ -185,8 +185,7 @@ def stepLine (line : String) : String :=
          | none => "load=err"
          | some s0 =>
            let outs := runOps (concImpl md5Loc max) s0 ops []
-           if outs.any (fun o => o.startsWith "bad-op") then "bad-op"
-           else ";".intercalate (("load=ok#" ++ allShapes s0) :: outs))
+           ";".intercalate (("load=ok#" ++ allShapes s0) :: outs))
       | _, _ => "bad-op"
   | _ => "bad-op"
 
